@@ -3,7 +3,7 @@ CONSTANTS McDepth = 2
           GenMode = "exhaustive"
           GenCfgName = "m2"
           GenDepth = 3
-          GenChainCfgName = "c3"
+          GenChainCfgName = "chain"
           GenChainOps = 3
           GenPtr = TRUE
           SimMinDepth = 4
